@@ -128,6 +128,21 @@ def rule_H3(ctx) -> None:
 def rule_H4(ctx) -> None:
     mod = ctx.repo.mod(M_ENUM)
     new = mod.func("Enum.__new__")
+    for red in ("Enum.__reduce_ex__", "Enum.__reduce__"):
+        if mod.has(red):
+            fn = mod.func(red)
+            rets = [n.value for n in ast.walk(fn) if isinstance(n, ast.Return) and n.value is not None]
+            closed = [r for r in rets if isinstance(r, ast.Tuple) and r.elts and ast.unparse(r.elts[0]) in ("self.__class__", "type(self)")]
+            if closed:
+                ctx.refuted("H4", "pickle-args-match-__new__", "closed-constructor", mod.loc(fn),
+                            f"{red} rebuilds the member with {ast.unparse(closed[0])}: calling the enum class is the *closed* lookup (EnumType.__call__), so a value the enum does not define "
+                            "(legal everywhere else) cannot be unpickled", "pickle.loads(pickle.dumps(E.try_value(5)))")
+            else:
+                ctx.inconclusive("H4", "pickle-args-match-__new__", f"custom {red} not understood", mod.loc(fn))
+            return
+    if not mod.has("Enum.__getnewargs_ex__"):
+        ctx.inconclusive("H4", "pickle-args-match-__new__", "neither __getnewargs_ex__ nor a __reduce__ hook found", mod.loc(new))
+        return
     ga = mod.func("Enum.__getnewargs_ex__")
     kwonly = {a.arg for a in new.args.kwonlyargs}
     keys: Set[str] = set()
